@@ -767,7 +767,9 @@ class Permutation(base.Recombinator):
     super()._on_bound()
     self._random = random if self.seed is None else random.Random(self.seed)
     if self.where.sym_hasattr('seed'):
-      self.where.rebind(seed=self.seed, skip_notification=True)
+      # The filter must re-create its random generator from the new seed (its
+      # `_on_bound`), without notifying this recombinator again.
+      self.where.rebind(seed=self.seed, notify_parents=False)
 
   def recombine(
       self,
